@@ -275,6 +275,374 @@ func (c *dirCopy) visit(path string, d fs.DirEntry, err error) error {
 }
 """
 
+# ---- second pass: the source resolution of Install as a helper, the lookup through a worker of Get, the version gate as a helper
+SRC_OLD = """	var installFromNonDir bool
+	pluginExecutableFile, pluginName, err := parsePluginFromDir(ctx, installOpts.PluginPath)
+	if err != nil {
+		if !errors.Is(err, file.ErrNotDirectory) {
+			return nil, nil, fmt.Errorf("failed to read plugin from input directory: %w", err)
+		}
+		// input is not a dir, check if it's a single plugin executable file
+		installFromNonDir = true
+		pluginExecutableFile = installOpts.PluginPath
+		pluginExecutableFileName := filepath.Base(pluginExecutableFile)
+		pluginName, err = parsePluginName(pluginExecutableFileName)
+		if err != nil {
+			return nil, nil, fmt.Errorf("failed to read plugin name from input file %s: %w", pluginExecutableFileName, err)
+		}
+		isExec, err := isExecutableFile(pluginExecutableFile)
+		if err != nil {
+			return nil, nil, fmt.Errorf("failed to check if input file %s is executable: %w", pluginExecutableFileName, err)
+		}
+		if !isExec {
+			return nil, nil, fmt.Errorf("input file %s is not executable", pluginExecutableFileName)
+		}
+	}
+"""
+VALIDATE_OLD = """	if err := validatePluginName(pluginName); err != nil {
+		return nil, nil, err
+	}
+	// validate and get new plugin metadata
+"""
+UNINSTALL_DECL = """// Uninstall uninstalls a plugin on the system by its name.
+// If the plugin dir does not exist, os.ErrNotExist is returned.
+"""
+# (a) result object built with composite literals on each exit; Install reads the fields
+SRC_CALL_LIT = """	from, err := locateSource(ctx, installOpts.PluginPath)
+	if err != nil {
+		return nil, nil, err
+	}
+	pluginExecutableFile, pluginName := from.file, from.plugin
+"""
+SRC_HELPER_LIT = """// sourceInfo is what Install installs from.
+type sourceInfo struct {
+	file   string
+	plugin string
+	single bool
+}
+
+func locateSource(ctx context.Context, p string) (sourceInfo, error) {
+	exe, name, err := parsePluginFromDir(ctx, p)
+	if err == nil {
+		return sourceInfo{file: exe, plugin: name}, nil
+	}
+	if !errors.Is(err, file.ErrNotDirectory) {
+		return sourceInfo{}, fmt.Errorf("failed to read plugin from input directory: %w", err)
+	}
+	base := filepath.Base(p)
+	name, err = parsePluginName(base)
+	if err != nil {
+		return sourceInfo{}, fmt.Errorf("failed to read plugin name from input file %s: %w", base, err)
+	}
+	isExec, err := isExecutableFile(p)
+	if err != nil {
+		return sourceInfo{}, fmt.Errorf("failed to check if input file %s is executable: %w", base, err)
+	}
+	if !isExec {
+		return sourceInfo{}, fmt.Errorf("input file %s is not executable", base)
+	}
+	return sourceInfo{file: p, plugin: name, single: true}, nil
+}
+
+"""
+RES_LIT = [(M, SRC_OLD, SRC_CALL_LIT), (M, '\tif installFromNonDir {\n', '\tif from.single {\n'), (M, UNINSTALL_DECL, SRC_HELPER_LIT + UNINSTALL_DECL)]
+def res_lit(find=None, replace=None, call=None):
+    h = SRC_HELPER_LIT if find is None else rep(SRC_HELPER_LIT, find, replace)
+    return [(M, SRC_OLD, call or SRC_CALL_LIT), (M, '\tif installFromNonDir {\n', '\tif from.single {\n'), (M, UNINSTALL_DECL, h + UNINSTALL_DECL)]
+
+# (b) result object declared up front and filled in; the name is validated in the helper; the local of the helper and the
+# local of Install have different names
+SRC_CALL_FILL = """	from, err := locateSource(ctx, installOpts.PluginPath)
+	if err != nil {
+		return nil, nil, err
+	}
+	pluginExecutableFile, pluginName, installFromNonDir := from.file, from.plugin, from.single
+"""
+SRC_HELPER_FILL = """// sourceInfo is what Install installs from.
+type sourceInfo struct {
+	single bool
+	file   string
+	plugin string
+}
+
+func locateSource(ctx context.Context, p string) (sourceInfo, error) {
+	var found sourceInfo
+	var err error
+	found.file, found.plugin, err = parsePluginFromDir(ctx, p)
+	if err != nil {
+		if !errors.Is(err, file.ErrNotDirectory) {
+			return sourceInfo{}, fmt.Errorf("failed to read plugin from input directory: %w", err)
+		}
+		found.single = true
+		found.file = p
+		if found.plugin, err = nameOfExecutable(p); err != nil {
+			return sourceInfo{}, err
+		}
+	}
+	if err := validatePluginName(found.plugin); err != nil {
+		return sourceInfo{}, err
+	}
+	return found, nil
+}
+
+func nameOfExecutable(p string) (string, error) {
+	base := filepath.Base(p)
+	name, err := parsePluginName(base)
+	if err != nil {
+		return "", fmt.Errorf("failed to read plugin name from input file %s: %w", base, err)
+	}
+	isExec, err := isExecutableFile(p)
+	if err != nil {
+		return "", fmt.Errorf("failed to check if input file %s is executable: %w", base, err)
+	}
+	if !isExec {
+		return "", fmt.Errorf("input file %s is not executable", base)
+	}
+	return name, nil
+}
+
+"""
+def res_fill(find=None, replace=None):
+    h = SRC_HELPER_FILL if find is None else rep(SRC_HELPER_FILL, find, replace)
+    return [(M, SRC_OLD, SRC_CALL_FILL), (M, VALIDATE_OLD, '\t// validate and get new plugin metadata\n'), (M, UNINSTALL_DECL, h + UNINSTALL_DECL)]
+
+# (c) four results instead of a struct
+SRC_CALL_FOUR = """	pluginExecutableFile, pluginName, installFromNonDir, err := locateSource(ctx, installOpts.PluginPath)
+	if err != nil {
+		return nil, nil, err
+	}
+"""
+SRC_HELPER_FOUR = """func locateSource(ctx context.Context, p string) (exe string, name string, single bool, err error) {
+	exe, name, err = parsePluginFromDir(ctx, p)
+	if err == nil {
+		return exe, name, false, nil
+	}
+	if !errors.Is(err, file.ErrNotDirectory) {
+		return "", "", false, fmt.Errorf("failed to read plugin from input directory: %w", err)
+	}
+	base := filepath.Base(p)
+	name, err = parsePluginName(base)
+	if err != nil {
+		return "", "", false, fmt.Errorf("failed to read plugin name from input file %s: %w", base, err)
+	}
+	isExec, err := isExecutableFile(p)
+	if err != nil {
+		return "", "", false, fmt.Errorf("failed to check if input file %s is executable: %w", base, err)
+	}
+	if !isExec {
+		return "", "", false, fmt.Errorf("input file %s is not executable", base)
+	}
+	return p, name, true, nil
+}
+
+"""
+def res_four(find=None, replace=None):
+    h = SRC_HELPER_FOUR if find is None else rep(SRC_HELPER_FOUR, find, replace)
+    return [(M, SRC_OLD, SRC_CALL_FOUR), (M, UNINSTALL_DECL, h + UNINSTALL_DECL)]
+
+# (d) pointer to the result object; the directory scan one frame further down, its "not a directory" answer handed up as a bool
+SRC_HELPER_PTR = """// sourceInfo is what Install installs from.
+type sourceInfo struct {
+	file   string
+	plugin string
+	single bool
+}
+
+func scanSource(ctx context.Context, p string) (string, string, bool, error) {
+	exe, name, err := parsePluginFromDir(ctx, p)
+	if err != nil {
+		if errors.Is(err, file.ErrNotDirectory) {
+			return "", "", true, nil
+		}
+		return "", "", false, fmt.Errorf("failed to read plugin from input directory: %w", err)
+	}
+	return exe, name, false, nil
+}
+
+func locateSource(ctx context.Context, p string) (*sourceInfo, error) {
+	exe, name, notDir, err := scanSource(ctx, p)
+	if err != nil {
+		return nil, err
+	}
+	if !notDir {
+		return &sourceInfo{file: exe, plugin: name}, nil
+	}
+	base := filepath.Base(p)
+	name, err = parsePluginName(base)
+	if err != nil {
+		return nil, fmt.Errorf("failed to read plugin name from input file %s: %w", base, err)
+	}
+	isExec, err := isExecutableFile(p)
+	if err != nil {
+		return nil, fmt.Errorf("failed to check if input file %s is executable: %w", base, err)
+	}
+	if !isExec {
+		return nil, fmt.Errorf("input file %s is not executable", base)
+	}
+	return &sourceInfo{file: p, plugin: name, single: true}, nil
+}
+
+"""
+def res_ptr(find=None, replace=None, extra=()):
+    h = SRC_HELPER_PTR if find is None else rep(SRC_HELPER_PTR, find, replace)
+    return [(M, SRC_OLD, SRC_CALL_LIT), (M, '\tif installFromNonDir {\n', '\tif from.single {\n'), (M, UNINSTALL_DECL, h + UNINSTALL_DECL)] + list(extra)
+
+# (e) Get and Uninstall as validating wrappers over unexported workers; Install calls the workers
+GET_OLD = """	if err := validatePluginName(name); err != nil {
+		return nil, err
+	}
+	pluginPath := path.Join(name, binName(name))
+"""
+GET_WORKER = """	if err := validatePluginName(name); err != nil {
+		return nil, err
+	}
+	return m.lookup(ctx, name)
+}
+
+func (m *CLIManager) lookup(ctx context.Context, name string) (plugin.Plugin, error) {
+	pluginPath := path.Join(name, binName(name))
+"""
+UNINST_OLD = """	if err := validatePluginName(name); err != nil {
+		return err
+	}
+	pluginDirPath, err := m.pluginFS.SysPath(name)
+	if err != nil {
+		return err
+	}
+"""
+UNINST_WORKER = """	if err := validatePluginName(name); err != nil {
+		return err
+	}
+	return m.remove(name)
+}
+
+func (m *CLIManager) remove(name string) error {
+	pluginDirPath, err := m.pluginFS.SysPath(name)
+	if err != nil {
+		return err
+	}
+"""
+WORKERS = [(M, GET_OLD, GET_WORKER), (M, UNINST_OLD, UNINST_WORKER),
+           (M, '\texistingPlugin, err := m.Get(ctx, pluginName)\n', '\texistingPlugin, err := m.lookup(ctx, pluginName)\n'),
+           (M, '\tif err := m.Uninstall(ctx, pluginName); err != nil {\n', '\tif err := m.remove(pluginName); err != nil {\n')]
+# the worker as a plain function over the plugin file system
+GET_WORKER_FN = """	if err := validatePluginName(name); err != nil {
+		return nil, err
+	}
+	return lookupIn(m.pluginFS, name, ctx)
+}
+
+func lookupIn(fsys dir.SysFS, name string, ctx context.Context) (plugin.Plugin, error) {
+	pluginPath := path.Join(name, binName(name))
+"""
+
+# (f) the version gate as a helper
+GATE_OLD = """			comp, err := semver.ComparePluginVersion(newPluginMetadata.Version, existingPluginMetadata.Version)
+			if err != nil {
+				return nil, nil, fmt.Errorf("failed to compare plugin versions: %w", err)
+			}
+			switch {
+			case comp < 0:
+				return nil, nil, PluginDowngradeError{Msg: fmt.Sprintf("failed to install plugin %s. The installing plugin version %s is lower than the existing plugin version %s", pluginName, newPluginMetadata.Version, existingPluginMetadata.Version)}
+			case comp == 0:
+				return nil, nil, InstallEqualVersionError{Msg: fmt.Sprintf("plugin %s with version %s already exists", pluginName, existingPluginMetadata.Version)}
+			}
+"""
+GATE_CALL = """			if err := mustBeUpgrade(pluginName, newPluginMetadata.Version, existingPluginMetadata.Version); err != nil {
+				return nil, nil, err
+			}
+"""
+GATE_HELPER = """func mustBeUpgrade(name, candidate, installed string) error {
+	comp, err := semver.ComparePluginVersion(candidate, installed)
+	if err != nil {
+		return fmt.Errorf("failed to compare plugin versions: %w", err)
+	}
+	if comp < 0 {
+		return PluginDowngradeError{Msg: fmt.Sprintf("failed to install plugin %s. The installing plugin version %s is lower than the existing plugin version %s", name, candidate, installed)}
+	}
+	if comp == 0 {
+		return InstallEqualVersionError{Msg: fmt.Sprintf("plugin %s with version %s already exists", name, installed)}
+	}
+	return nil
+}
+
+"""
+def gate(find=None, replace=None):
+    h = GATE_HELPER if find is None else rep(GATE_HELPER, find, replace)
+    return [(M, GATE_OLD, GATE_CALL), (M, UNINSTALL_DECL, h + UNINSTALL_DECL)]
+# the gate helper takes the overwrite flag
+GATE_OLD_OV = "\t\tif !overwrite {\n" + GATE_OLD + "\t\t}\n"
+GATE_CALL_OV = """		if err := mustBeUpgrade(overwrite, pluginName, newPluginMetadata.Version, existingPluginMetadata.Version); err != nil {
+			return nil, nil, err
+		}
+"""
+GATE_HELPER_OV = rep(GATE_HELPER, 'func mustBeUpgrade(name, candidate, installed string) error {\n', 'func mustBeUpgrade(force bool, name, candidate, installed string) error {\n\tif force {\n\t\treturn nil\n\t}\n')
+def gate_ov(find=None, replace=None):
+    h = GATE_HELPER_OV if find is None else rep(GATE_HELPER_OV, find, replace)
+    return [(M, GATE_OLD_OV, GATE_CALL_OV), (M, UNINSTALL_DECL, h + UNINSTALL_DECL)]
+
+# (g) the whole existence-and-version check as a helper of Install
+EXIST_OLD = """	var existingPluginMetadata *plugin.GetMetadataResponse
+	existingPlugin, err := m.Get(ctx, pluginName)
+	if err != nil {
+		// fail only if overwrite is not set
+		if !errors.Is(err, os.ErrNotExist) && !overwrite {
+			return nil, nil, fmt.Errorf("failed to check plugin existence: %w", err)
+		}
+	} else { // plugin already exists
+		existingPluginMetadata, err = existingPlugin.GetMetadata(ctx, &plugin.GetMetadataRequest{})
+		if err != nil && !overwrite { // fail only if overwrite is not set
+			return nil, nil, fmt.Errorf("failed to get metadata of existing plugin: %w", err)
+		}
+		// existing plugin is valid, and overwrite is not set, check version
+		if !overwrite {
+""" + GATE_OLD + """		}
+	}
+"""
+EXIST_CALL = """	existingPluginMetadata, err := m.mayReplace(ctx, pluginName, newPluginMetadata.Version, overwrite)
+	if err != nil {
+		return nil, nil, err
+	}
+"""
+EXIST_HELPER = """func (m *CLIManager) mayReplace(ctx context.Context, name, candidate string, force bool) (*plugin.GetMetadataResponse, error) {
+	installed, err := m.Get(ctx, name)
+	if err != nil {
+		if !errors.Is(err, os.ErrNotExist) && !force {
+			return nil, fmt.Errorf("failed to check plugin existence: %w", err)
+		}
+		return nil, nil
+	}
+	md, err := installed.GetMetadata(ctx, &plugin.GetMetadataRequest{})
+	if force {
+		return md, nil
+	}
+	if err != nil {
+		return nil, fmt.Errorf("failed to get metadata of existing plugin: %w", err)
+	}
+	comp, err := semver.ComparePluginVersion(candidate, md.Version)
+	if err != nil {
+		return nil, fmt.Errorf("failed to compare plugin versions: %w", err)
+	}
+	switch {
+	case comp < 0:
+		return nil, PluginDowngradeError{Msg: fmt.Sprintf("failed to install plugin %s. The installing plugin version %s is lower than the existing plugin version %s", name, candidate, md.Version)}
+	case comp == 0:
+		return nil, InstallEqualVersionError{Msg: fmt.Sprintf("plugin %s with version %s already exists", name, md.Version)}
+	}
+	return md, nil
+}
+
+"""
+def exist(find=None, replace=None, call=None):
+    h = EXIST_HELPER if find is None else rep(EXIST_HELPER, find, replace)
+    return [(M, EXIST_OLD, call or EXIST_CALL), (M, UNINSTALL_DECL, h + UNINSTALL_DECL)]
+# the same with the comparison one frame further down
+EXIST_HELPER_NESTED = rep(EXIST_HELPER, EXIST_HELPER[EXIST_HELPER.index('\tcomp, err := semver.ComparePluginVersion(candidate, md.Version)\n'):EXIST_HELPER.index('\treturn md, nil\n}\n')],
+                          '\tif err := mustBeUpgrade(name, candidate, md.Version); err != nil {\n\t\treturn nil, err\n\t}\n') + GATE_HELPER
+def exist_nested(find=None, replace=None):
+    h = EXIST_HELPER_NESTED if find is None else rep(EXIST_HELPER_NESTED, find, replace)
+    return [(M, EXIST_OLD, EXIST_CALL), (M, UNINSTALL_DECL, h + UNINSTALL_DECL)]
+
 VARIANTS = [
  dict(name='equal-version-reinstalls', file=M, expect='flagged(table/decision)',
       find='\t\t\tcase comp == 0:\n\t\t\t\treturn nil, nil, InstallEqualVersionError{Msg: fmt.Sprintf("plugin %s with version %s already exists", pluginName, existingPluginMetadata.Version)}\n', replace=''),
@@ -438,4 +806,100 @@ VARIANTS = [
  dict(name='shape-dircopy-method-destination-moves', expect='flagged(copy/directory)',
       edits=[(F, DIRCOPY_OLD, rep(DIRCOPY_METHOD, '\tif info.Mode().IsRegular() {\n\t\treturn CopyToDir(path, c.dst)', '\tif info.Mode().IsRegular() {\n\t\tc.dst = filepath.Join(c.dst, "x")\n\t\treturn CopyToDir(path, c.dst)'))],
       why='the callback changes the destination field between entries'),
+
+ # ---- second pass
+ # F. the source resolution of Install as a helper; the helper is interpreted under each scenario of the decision table
+ dict(name='shape-resolver-struct-literal', expect='silent', edits=res_lit(),
+      why='locateSource returns sourceInfo{file, plugin, single} built by a composite literal on each exit; Install branches on from.single'),
+ dict(name='shape-resolver-struct-literal-source-error-tolerated', expect='flagged(table/decision)',
+      edits=res_lit('\tif !errors.Is(err, file.ErrNotDirectory) {\n\t\treturn sourceInfo{}, fmt.Errorf("failed to read plugin from input directory: %w", err)\n\t}\n', '\t_ = file.ErrNotDirectory\n'),
+      why='every failure of the directory scan is treated like "the source is a single file"'),
+ dict(name='shape-resolver-struct-literal-kind-flag-lost', expect='flagged(table/decision)',
+      edits=res_lit('\treturn sourceInfo{file: p, plugin: name, single: true}, nil\n', '\treturn sourceInfo{file: p, plugin: name}, nil\n'),
+      why='the single-file source is copied with the directory copy: the neighbours of the executable are installed too'),
+ dict(name='shape-resolver-struct-literal-kind-flag-inverted', expect='flagged(table/decision)',
+      edits=res_lit('\t\treturn sourceInfo{file: exe, plugin: name}, nil\n', '\t\treturn sourceInfo{file: exe, plugin: name, single: true}, nil\n')),
+ dict(name='shape-resolver-struct-literal-error-dropped', expect='flagged(table/decision)',
+      edits=res_lit(call='\tfrom, err := locateSource(ctx, installOpts.PluginPath)\n\tif err != nil && !overwrite {\n\t\treturn nil, nil, err\n\t}\n\tpluginExecutableFile, pluginName := from.file, from.plugin\n'),
+      why='with overwrite an unusable source no longer stops the installation'),
+ dict(name='shape-resolver-struct-literal-downgrade-allowed', expect='flagged(table/decision)',
+      edits=res_lit() + [(M, '\t\t\tcase comp < 0:', '\t\t\tcase comp < -1:')]),
+ dict(name='shape-resolver-filled-struct', expect='silent', edits=res_fill(),
+      why='var found sourceInfo filled field by field, the name validated in the helper, the single-file checks one frame further down; Install copies the fields into locals'),
+ dict(name='shape-resolver-filled-struct-flag-set-too-early', expect='flagged(table/decision)',
+      edits=res_fill('\tfound.file, found.plugin, err = parsePluginFromDir(ctx, p)\n\tif err != nil {\n', '\tfound.file, found.plugin, err = parsePluginFromDir(ctx, p)\n\tfound.single = true\n\tif err != nil {\n')),
+ dict(name='shape-resolver-filled-struct-name-not-validated', expect='flagged(gates/)',
+      edits=res_fill('\tif err := validatePluginName(found.plugin); err != nil {\n\t\treturn sourceInfo{}, err\n\t}\n', '')),
+ dict(name='shape-resolver-filled-struct-other-name-validated', expect='flagged(gates/)',
+      edits=res_fill('\tif err := validatePluginName(found.plugin); err != nil {\n', '\tif err := validatePluginName(filepath.Base(found.file)); err != nil {\n'),
+      why='the helper validates the file name, not the plugin name Install goes on with'),
+ dict(name='shape-resolver-four-results', expect='silent', edits=res_four()),
+ dict(name='shape-resolver-four-results-kind-swapped', expect='flagged(table/decision)',
+      edits=res_four('\t\treturn exe, name, false, nil\n', '\t\treturn exe, name, true, nil\n')),
+ dict(name='shape-resolver-four-results-source-error-tolerated', expect='flagged(table/decision)',
+      edits=res_four('\tif !errors.Is(err, file.ErrNotDirectory) {\n', '\tif !errors.Is(err, file.ErrNotDirectory) && !errors.Is(err, os.ErrPermission) {\n')),
+ dict(name='shape-resolver-pointer-two-frames', expect='silent', edits=res_ptr(),
+      why='the parser call sits two frames below Install; its "not a directory" answer travels up as a bool result, the source as *sourceInfo'),
+ dict(name='shape-resolver-pointer-two-frames-scan-error-as-file', expect='flagged(table/decision)',
+      edits=res_ptr('\t\tif errors.Is(err, file.ErrNotDirectory) {\n\t\t\treturn "", "", true, nil\n\t\t}\n', '\t\tif errors.Is(err, file.ErrNotDirectory) || errors.Is(err, os.ErrNotExist) {\n\t\t\treturn "", "", true, nil\n\t\t}\n')),
+ dict(name='shape-resolver-pointer-two-frames-flag-rewritten-by-install', expect='flagged(table/decision)',
+      edits=res_ptr(extra=[(M, '\t// core process\n', '\tfrom.single = from.single && !overwrite\n\t// core process\n')]),
+      why='Install changes the kind flag of the object it got: with overwrite a single file is installed with the directory copy'),
+ # G. Get / Uninstall as validating wrappers over workers that Install calls directly
+ dict(name='shape-lookup-worker', expect='silent', edits=WORKERS,
+      why='Install calls the worker Get delegates to, after the check Get makes before it'),
+ dict(name='shape-lookup-worker-function', expect='silent',
+      edits=[(M, GET_OLD, GET_WORKER_FN), (M, '\tpath, err := m.pluginFS.SysPath(pluginPath)\n', '\tpath, err := fsys.SysPath(pluginPath)\n'),
+             (M, '\texistingPlugin, err := m.Get(ctx, pluginName)\n', '\texistingPlugin, err := lookupIn(m.pluginFS, pluginName, ctx)\n')],
+      why='the worker is a plain function over the plugin file system, arguments in another order'),
+ dict(name='shape-lookup-worker-before-validation', expect='flagged(anchor/install-shape)',
+      edits=[(M, GET_OLD, GET_WORKER), (M, '\texistingPlugin, err := m.Get(ctx, pluginName)\n', '\texistingPlugin, err := m.lookup(ctx, pluginName)\n'), (M, VALIDATE_OLD, '\t// validate and get new plugin metadata\n'),
+             (M, '\t// clean up before installation, this guarantees idempotent for install\n', '\tif err := validatePluginName(pluginName); err != nil {\n\t\treturn nil, nil, err\n\t}\n\t// clean up before installation, this guarantees idempotent for install\n')],
+      why='the worker is called with a name that has not passed the check Get makes: its answer is not the answer of Get'),
+ dict(name='shape-lookup-worker-other-name', expect='flagged(anchor/install-shape)',
+      edits=[(M, GET_OLD, GET_WORKER), (M, '\texistingPlugin, err := m.Get(ctx, pluginName)\n', '\texistingPlugin, err := m.lookup(ctx, filepath.Base(pluginExecutableFile))\n')]),
+ dict(name='shape-lookup-not-the-worker-of-get', expect='flagged(anchor/install-shape)',
+      edits=[(M, '\texistingPlugin, err := m.Get(ctx, pluginName)\n', '\texistingPlugin, err := m.peek(ctx, pluginName)\n'),
+             (M, UNINSTALL_DECL, 'func (m *CLIManager) peek(ctx context.Context, name string) (plugin.Plugin, error) {\n\tif _, err := m.pluginFS.SysPath(name); err != nil {\n\t\treturn nil, err\n\t}\n\treturn nil, os.ErrNotExist\n}\n\n' + UNINSTALL_DECL)],
+      why='a look-alike of Get that never finds an installed plugin: every version is installed over every other'),
+ dict(name='shape-lookup-worker-downgrade-allowed', expect='flagged(table/decision)',
+      edits=WORKERS + [(M, '\t\t\tcase comp < 0:', '\t\t\tcase comp < -1:')]),
+ dict(name='shape-lookup-worker-get-error-tolerated', expect='flagged(table/decision)',
+      edits=WORKERS + [(M, '\t\tif !errors.Is(err, os.ErrNotExist) && !overwrite {', '\t\tif !errors.Is(err, os.ErrNotExist) && overwrite {')]),
+ # H. the version gate as a helper
+ dict(name='shape-version-gate-helper', expect='silent', edits=gate()),
+ dict(name='shape-version-gate-helper-equal-accepted', expect='flagged(table/)',
+      edits=gate('\tif comp == 0 {\n', '\tif comp == 0 && name == "" {\n')),
+ dict(name='shape-version-gate-helper-compare-error-dropped', expect='flagged(table/)',
+      edits=gate('\tif err != nil {\n\t\treturn fmt.Errorf("failed to compare plugin versions: %w", err)\n\t}\n', '\t_ = err\n')),
+ dict(name='shape-version-gate-helper-args-swapped', expect='flagged(semver/argument-order)',
+      edits=gate('semver.ComparePluginVersion(candidate, installed)', 'semver.ComparePluginVersion(installed, candidate)')),
+ dict(name='shape-version-gate-helper-with-overwrite-flag', expect='silent', edits=gate_ov(),
+      why='the helper receives the overwrite flag and answers nil at once when it is set'),
+ dict(name='shape-version-gate-helper-with-overwrite-flag-inverted', expect='flagged(table/)',
+      edits=gate_ov('\tif force {\n', '\tif !force {\n')),
+ dict(name='shape-version-gate-helper-with-overwrite-flag-downgrade', expect='flagged(table/)',
+      edits=gate_ov('\tif comp < 0 {\n', '\tif comp < -1 {\n')),
+
+ # I. the whole existence-and-version check as a helper of Install (lookup, metadata of the existing plugin and comparison one frame down)
+ dict(name='shape-existing-check-helper', expect='silent', edits=exist(),
+      why='mayReplace(ctx, name, newVersion, overwrite) holds Get, GetMetadata and the comparison; it is interpreted under each scenario with the flag bound'),
+ dict(name='shape-existing-check-helper-equal-accepted', expect='flagged(table/decision)',
+      edits=exist('\tcase comp == 0:\n\t\treturn nil, InstallEqualVersionError{Msg: fmt.Sprintf("plugin %s with version %s already exists", name, md.Version)}\n', '')),
+ dict(name='shape-existing-check-helper-flag-inverted', expect='flagged(table/decision)',
+      edits=exist('\tif force {\n\t\treturn md, nil\n\t}\n', '\tif !force {\n\t\treturn md, nil\n\t}\n')),
+ dict(name='shape-existing-check-helper-flag-constant', expect='flagged(table/decision)',
+      edits=exist(call=EXIST_CALL.replace('newPluginMetadata.Version, overwrite)', 'newPluginMetadata.Version, overwrite || true)')),
+      why='Install always asks the helper to overwrite'),
+ dict(name='shape-existing-check-helper-error-dropped', expect='flagged(table/decision)',
+      edits=exist(call='\texistingPluginMetadata, _ := m.mayReplace(ctx, pluginName, newPluginMetadata.Version, overwrite)\n')),
+ dict(name='shape-existing-check-helper-other-name', expect='flagged(gates/existing-lookup-name)',
+      edits=exist('\tinstalled, err := m.Get(ctx, name)\n', '\tinstalled, err := m.Get(ctx, candidate)\n')),
+ dict(name='shape-existing-check-helper-args-swapped', expect='flagged(semver/argument-order)',
+      edits=exist('semver.ComparePluginVersion(candidate, md.Version)', 'semver.ComparePluginVersion(md.Version, candidate)')),
+ dict(name='shape-existing-check-helper-install-passes-wrong-version', expect='flagged(semver/argument-order)',
+      edits=exist(call=EXIST_CALL.replace('newPluginMetadata.Version, overwrite)', 'newPluginMetadata.Name, overwrite)'))),
+ dict(name='shape-existing-check-helper-nested-gate', expect='silent', edits=exist_nested()),
+ dict(name='shape-existing-check-helper-nested-gate-downgrade', expect='flagged(table/decision)',
+      edits=exist_nested('\tif comp < 0 {\n', '\tif comp < -1 {\n')),
 ]
